@@ -115,10 +115,11 @@ func init() {
 				w = globDepWF(c)
 			} else {
 				w = Generate(c.Tape, tierProfile(profC04, c.Tier))
-				AddTagArgs(c.Tape, w) // some commands receive tag values ({t:port.key})
+				// (first: it changes path names, on which the taggers' decisions depend)
 				if HideParams(c.Tape, w) {
 					c.Probe("gofunc-with-hidden-params")
 				}
+				AddTagArgs(c.Tape, w) // some commands receive tag values ({t:port.key})
 			}
 			c.Sample = sample(w)
 			if v, done := defaultNamesDeterminism(c, w); done {
